@@ -19,6 +19,7 @@ import ProphyModel.Copy
 import ProphyModel.Files
 import ProphyModel.FilesL
 import ProphyModel.FilesW
+import ProphyModel.CppLit
 import ProphyModel.Patch
 import ProphyModel.Accept
 import ProphyModel.WF
@@ -286,14 +287,19 @@ def handle (st : DState) (j : Json) : Except String (DState × Json) := do
         | .ambiguous _ _ => "ambiguous" | .tooDeep _ => "tooDeep" | .twoNames _ => "twoNames"
       pure (st, Json.mkObj [("error", kind), ("alone", alone)])
   | "isar_members" =>
+    let flagText : Option String := match j.getObjVal? "dim" with
+      | .ok d => optStr d "isVariableSize"
+      | _ => none
+    if (match flagText with | some v => (Patch.readFlag v).isNone | none => false) then
+      return (st, Json.mkObj [("error", "flag")])
     let dim : Option Patch.Dim := match j.getObjVal? "dim" with
       | .ok (.obj _) =>
         let d := (j.getObjVal? "dim").toOption.getD Json.null
         let size := optStr d "size"
         some { size := size, size2 := optStr d "size2", sizerName := optStr d "variableSizeFieldName",
                sizerType := optStr d "variableSizeFieldType",
-               isVariable := (match optStr d "isVariableSize" with       -- read by value since the repair of D90
-                 | some v => v.toLower != "false" && v != "0"
+               isVariable := (match optStr d "isVariableSize" with       -- read by value (D90), by one rule (D201)
+                 | some v => (Patch.readFlag v).getD false
                  | none => false),
                marker := match size with
                  | some s => decide ((s.splitOn "THIS_IS_VARIABLE_SIZE_ARRAY").length > 1)
@@ -392,6 +398,16 @@ def handle (st : DState) (j : Json) : Except String (DState × Json) := do
     let text (b : List Nat) : String := String.ofList (b.map Char.ofNat)
     pure (st, Json.mkObj [("ok", Json.bool ok),
       ("contents", Json.arr (contents.map (fun c => match c with | some b => Json.str (text b) | none => Json.null)).toArray)])
+  | "cpp_literal" =>
+    -- `_to_literal` of the C++ generators (ProphyModel/CppLit.lean): the text written, what int(text, 0) gives, what a C++
+    -- compiler reads from the written text, the value of a lone literal and whether it is rendered rather than pasted
+    let cs := (← getStr j "text").toList
+    let optInt (o : Option Int) : Json := match o with | some i => Json.num (JsonNumber.fromInt i) | none => Json.null
+    pure (st, Json.mkObj [("literal", Json.str (String.ofList (CppLit.toLiteral cs))),
+      ("py", optInt (CppLit.pyInt0 cs)),
+      ("read", optInt (CppLit.cppRead (CppLit.toLiteral cs))),
+      ("lone", optInt (CppLit.loneValue cs)),
+      ("rendered", Json.bool (CppLit.rendered cs))])
   | "calc_resolve" =>
     -- the name-resolution loop of calc (ProphyModel/Resolve.lean): vars = [[name, value]], value = int | string | null
     let vars ← (← getArr j "vars").toList.mapM (fun e => do
